@@ -447,6 +447,12 @@ def _srv17_script(rec: Rec, case, f, ts_spec, data_spec, nontrivial, deep, keepe
         bad("wrapper/Service17Tm.unpack-then-pack/octets", short(bytes(u.pack())), short(ref))
     if not (u.pus_tm == w.pus_tm and w.pus_tm == _tm().PusTm.unpack(ref, T)):
         bad("wrapper/Service17Tm.unpack/decoded-not-equal-original")
+    elif not (u == w and w == u):  # "returns an equal telemetry packet ... (also via the service-17 wrapper": the wrappers themselves
+        bad("wrapper/Service17Tm.unpack/decoded-wrapper-not-equal-original-wrapper")
+    else:
+        other = Service17Tm(apid=apid, subservice=(sub + 1) % 256, timestamp=ts, ssc=cnt, source_data=data, packet_version=ver, space_time_ref=tref, destination_id=dest)
+        if u == other or other == u or not (u != other):
+            bad("wrapper/Service17Tm.unpack/equal-to-a-wrapper-with-another-subservice")
     if deep:
         view = bytes(u.pus_tm.to_space_packet().pack())
         if view != ref:
@@ -581,7 +587,7 @@ def check_defaults(rec: Rec, ctor, k, T, mask, rnd, keeper=None):
         raw_obj = o.pack()
         if bytes(raw_obj) != ref:
             rec.violation("C03.encode/%s(omitted-arguments)/octets" % ctor, case, short(bytes(raw_obj)), short(ref), repro="%s(<required>, **%r).pack()" % (ctor, kw))
-        elif obs(u) != obs(o) or not (u == o if ctor != "Service17Tm" else u.pus_tm == o.pus_tm):
+        elif obs(u) != obs(o) or not (u == o and o == u) or (ctor == "Service17Tm" and not u.pus_tm == o.pus_tm):
             rec.violation("C03.encode/%s(omitted-arguments)/fields" % ctor, case, [short(x) for x in obs(o)], [short(x) for x in obs(u)])
         elif keeper is not None:
             keeper.hold(ctor + ".pack", raw_obj, bytes, case)
@@ -728,6 +734,11 @@ def run_history(rec: Rec, k, T, mode, events, nontrivial=True):
         twin = h_twin(m, model)
         if not (o == twin and twin == o):
             bad("%s/then/not-equal-to-a-fresh-telemetry-with-the-same-values" % after)
+        elif w is not o:  # the wrapper compares like the telemetry it carries
+            tw = _s17()(apid=0, subservice=0, timestamp=b"")
+            tw.pus_tm = twin
+            if not (w == tw and tw == w):
+                bad("%s/then/wrapper-not-equal-to-a-fresh-wrapper-with-the-same-values" % after)
 
     try:
         o, w = h_make(m, mode, model)
